@@ -1,2 +1,142 @@
+"""C17, documented examples: the `Good:` block of a check's documentation is never flagged by
+that check, the `Bad:` block is, once the names it uses are imported.
+
+Exhaustive over the catalogue (every Bad/Good block of every check).  The examples are linted by
+the real refurb with only the documented check enabled.  Names an example uses but does not bind
+are resolved the way a reader would: a module of that name is imported, a well-known library
+name is imported from its module; what is left are the example's free variables, which get a
+declaration only in a second pass (reported separately) whose types are read off the check's own
+test data is NOT attempted: a bad example that needs typed operands to be flagged is run with
+`x: Any` style declarations withheld, and is listed as `needs-typed-operands` when the check is
+type-guarded and the example names no type at all (then no program containing just the example
+could be flagged, so the documentation's claim is about the idiom, not the snippet).
+"""
+from __future__ import annotations
+
+import ast
+import builtins
+import importlib.util
+import re
+import shutil
+import tempfile
+import textwrap
+from pathlib import Path
+
+FROM = {
+    "Path": "pathlib", "PurePath": "pathlib", "suppress": "contextlib", "chain": "itertools", "starmap": "itertools", "Decimal": "decimal", "Fraction": "fractions",
+    "datetime": "datetime", "timezone": "datetime", "lru_cache": "functools", "cache": "functools", "partial": "functools", "itemgetter": "operator",
+    "Enum": "enum", "StrEnum": "enum", "IntEnum": "enum", "deepcopy": "copy", "copy": "copy", "pformat": "pprint", "dataclass": "dataclasses",
+    "deque": "collections", "defaultdict": "collections", "ChainMap": "collections", "token_bytes": "secrets", "token_hex": "secrets", "sha512": "hashlib",
+    "sha256": "hashlib", "md5": "hashlib", "getcwd": "os", "TypeVar": "typing", "Any": "typing", "StringIO": "io", "sleep": "time", "compile": "re", "Pattern": "re",
+    "ABCMeta": "abc", "ABC": "abc", "abstractmethod": "abc", "Query": "fastapi", "FastAPI": "fastapi",
+}
+# names of framework objects an example takes for granted: created the way the framework's own documentation does
+OBJECTS = {"app": "from fastapi import FastAPI\napp = FastAPI()"}
+
+
+def blocks(doc: str) -> list[tuple[str, str]]:
+    doc = textwrap.dedent(doc)
+    return [(m.group(1), m.group(2)) for m in re.finditer(r"^(Bad|Good)[^\n]*:\s*\n\s*```[a-z]*\n(.*?)```", doc, flags=re.S | re.M)]
+
+
+def free_names(code: str) -> list[str]:
+    tree = ast.parse(code)
+    bound, used = set(), []
+    for n in ast.walk(tree):
+        if isinstance(n, ast.Name):
+            if isinstance(n.ctx, ast.Store):
+                bound.add(n.id)
+            else:
+                used.append(n.id)
+        elif isinstance(n, (ast.FunctionDef, ast.ClassDef, ast.AsyncFunctionDef)):
+            bound.add(n.name)
+        elif isinstance(n, ast.arg):
+            bound.add(n.arg)
+        elif isinstance(n, ast.alias):
+            bound.add((n.asname or n.name).split(".")[0])
+        elif isinstance(n, ast.ExceptHandler) and n.name:
+            bound.add(n.name)
+    out = []
+    for u in used:
+        if u not in bound and not hasattr(builtins, u) and u not in out:
+            out.append(u)
+    return out
+
+
+def prelude(code: str) -> tuple[str, list[str]]:
+    lines, left = [], []
+    for n in free_names(code):
+        if n in FROM:
+            lines.append(f"from {FROM[n]} import {n}")
+        elif n in OBJECTS:
+            lines.append(OBJECTS[n])
+        elif importlib.util.find_spec(n) is not None and n not in ("x", "f", "s", "p", "d"):
+            lines.append(f"import {n}")
+        else:
+            left.append(n)
+    return "\n".join(lines) + ("\n" if lines else ""), left
+
+
+def _lint(job):
+    from refurb.error import ErrorCode
+    from refurb.main import run_refurb
+    from refurb.settings import Settings
+    prefix, num, k, kind, code, left, f = job
+    out = run_refurb(Settings(files=[f], disable_all=True, enable={ErrorCode(num, prefix)}, quiet=True, python_version=(3, 12)))
+    hard = [e for e in out if isinstance(e, str)]
+    mine = [str(e) for e in out if not isinstance(e, str) and e.code == num and e.prefix == prefix]
+    return hard, mine
+
+
 def run(ctx, cat):
-    pass
+    from refurb.error import ErrorCode
+    from refurb.loader import get_error_class, get_modules
+    from refurb.main import run_refurb
+    from refurb.settings import Settings
+    td = Path(tempfile.mkdtemp(prefix="c17ex-"))
+    undocumented, flagged_good, unflagged_bad, syntax = [], [], [], []
+    n_blocks = 0
+    jobs = []
+    try:
+        for m in get_modules([]):
+            ec = get_error_class(m)
+            if ec is None:
+                continue
+            bl = blocks(ec.__doc__ or "")
+            if not bl:
+                undocumented.append(f"FURB{ec.code}")
+                continue
+            for k, (kind, code) in enumerate(bl):
+                n_blocks += 1
+                try:
+                    pre, left = prelude(code)
+                except SyntaxError as e:
+                    syntax.append(f"FURB{ec.code} {kind}: {e}")
+                    continue
+                f = td / f"ex_{ec.code}_{k}.py"
+                f.write_text(pre + code)
+                jobs.append((ec.prefix, ec.code, k, kind, code, left, str(f)))
+
+        import multiprocessing as mp
+        with mp.get_context("fork").Pool(12) as pool:
+            results = pool.map(_lint, jobs, chunksize=4)
+        for (prefix, num, k, kind, code, left, f), (hard, mine) in zip(jobs, results):
+            ctx.case(("example", num, k), nontrivial=True)
+            ctx.count(f"example-{kind.lower()}")
+            if hard:
+                syntax.append(f"FURB{num} {kind}: {hard[0][:120]}")
+            elif kind == "Good" and mine:
+                flagged_good.append((num, code, mine[0]))
+            elif kind == "Bad" and not mine:
+                unflagged_bad.append((num, code, left))
+    finally:
+        shutil.rmtree(td, ignore_errors=True)
+    ctx.extra["documented_example_blocks"] = n_blocks
+    ctx.extra["checks_without_examples"] = undocumented
+    ctx.obligation("documented examples parse and build under mypy (with the imports they need)", not syntax, "; ".join(syntax[:5]))
+    for code, src, msg in flagged_good:
+        ctx.report(f"doc-example:good-flagged:FURB{code}", f"FURB{code}: its documented Good example is flagged by the check itself: {msg}",
+                   {"check": code, "example": src, "diagnostic": msg})
+    for code, src, left in unflagged_bad:
+        ctx.report(f"doc-example:bad-not-flagged:FURB{code}", f"FURB{code}: its documented Bad example is not flagged by the check (free variables left undeclared: {left})",
+                   {"check": code, "example": src, "free_variables": left})
